@@ -5,6 +5,9 @@ ROOT="$(cd "$(dirname "${BASH_SOURCE[0]}")" && pwd)"
 export CARGO_NET_OFFLINE=true
 TARGET="${VERIF_TARGET:-/verif/target}"
 mkdir -p "$TARGET" "$ROOT/evidence" "$ROOT/replays"
-(cd "$ROOT/sim-pool" && cargo build --profile sim --target-dir "$TARGET/sim-pool")
-(cd "$ROOT/sim" && cargo build --profile sim --target-dir "$TARGET/sim" --workspace)
+for dir in "$ROOT"/sim-*/; do
+  key="$(basename "$dir")"
+  echo "== building $key"
+  (cd "$dir" && cargo build --profile sim --target-dir "$TARGET/$key")
+done
 echo "setup done"
